@@ -989,7 +989,7 @@ func cqCheck(c *core.Ctx, cases []cqCase) []core.Outcome {
 				lean = "<missing>"
 			}
 			if lean != p.ans[n] {
-				o.Fail = &core.Failure{Kind: "correspondence-break", Key: "Kq:" + cqFunctionOf(n),
+				o.Fail = &core.Failure{Kind: "correspondence-break", Key: "Kq:" + cqFunctionOf(n) + ":model",
 					Summary:  fmt.Sprintf("%s (%s) on the pair A = %s, B = %s: the Go code and the Lean model of the query functions disagree", cqFunctionOf(n), n, cases[p.caseIdx].A.String(), cases[p.caseIdx].B.String()),
 					Expected: "Lean: " + c16Clip(lean), Got: "Go: " + c16Clip(p.ans[n])}
 				break
